@@ -125,3 +125,8 @@ CASES += [
     {"name": "cut-off Redfield part added in place to the full-length array (the repaired defect)", "kind": "mutant", "rule": "C01-F", "edits": [
         ("quantarhei/qm/liouvillespace/tdredfieldfoerster.py", "            Ntr = RT.data.shape[0]\n            self.data = self.data[:Ntr,:,:,:,:] + RT.data\n", "            self.data += RT.data\n", 1)]},
 ]
+
+CASES += [
+    {"name": "Foerster tensor allocated in the constructor only (seeded change of round 5)", "kind": "mutant", "rule": "C01-G", "edits": [
+        (R + "foerstertensor.py", "        self.data = numpy.zeros((Na,Na,Na,Na),dtype=COMPLEX)\n", "", 1)]},
+]
